@@ -75,6 +75,119 @@ CHECKS["C19"] = {
     },
 }
 
+_STORE_COMPONENTS = {
+    "real": REAL_COMMON + ["bibtexparser.splitter.Splitter", "parse_string / parse_file / write_string / write_file", "default parse and unparse stacks", "bibtexparser.writer"],
+    "stub": ["disk: in-memory SimDisk + SimRaw raw device (simbib/simfs.py) under CPython's real TextIOWrapper/Buffered* layers",
+             "foreign .bib-writing tool: simbib/docgen.py", "storage faults: simbib/faults.py", "builtins.open as seen by bibtexparser.entrypoint (module-global shadow)"],
+}
+
+CHECKS["C01"] = {
+    "machine": "store",
+    "runs": {"quick": 40_000, "thorough": 1_500_000},
+    "chunk": {"quick": 500, "thorough": 2_000},
+    "budget_s": {"quick": 80, "thorough": 900},
+    "run_timeout": 120,
+    "manifest": {
+        "text": "Partial. Decided for every text a faulty storage stack can hand the parser: valid files (foreign tool and the library's own writer) "
+                "damaged by torn / lost / duplicated / misdirected writes, bit rot, interleaved writers, garbage inserts, plus a fault-free "
+                "size swarm (blank-line runs, banners, long values, deep nesting, unterminated blocks, mark soup up to 10^5 lines in thorough). "
+                "Oracle during the run: nothing escapes parse_file/parse_string/write_string nor the re-parse of the written text; every failed block "
+                "carries error and raw; a deterministic line-event budget (sys.settrace) stands in for 'no hang'. NOT decided: the bounded-exhaustive "
+                "token-sequence half of the quantifier (that is model checking).",
+        "design_ref": "DESIGN.md section 3 / C01",
+        "note": "Sampling. Undecodable bytes are decoded leniently by the simulated client so the parser always sees the damage. "
+                "The step budget K*len+C is fixed (K=80, C=5000) and only applied on a sampled subset and on runs that hit the wall-clock watchdog.",
+        "technique": "deterministic simulation: storage-fault injection on a simulated disk + size swarm, invariants checked during each run",
+    },
+    "extra": {
+        "rule": "each run = one stored document (docgen foreign layout, library writer normal form, size-scaled family or mark soup), 0-3 storage faults, "
+                "then load -> save -> load (-> fault -> load); distinct = distinct event-log shape incl. document/fault digests; non-trivial = a fault changed the bytes or a failed block appeared.",
+        "state_measure": "distinct (block-class sequence prefix, set of abort-reason classes) per load",
+        "expected_probes": ["abort:eof", "abort:unexpected-block-start", "abort:expected-equals",
+                            "abort:expected-comma-after-key", "abort:expected-equals-after-string-key", "many_newlines",
+                            "undecodable_bytes_lenient_client", "traced_calls", "crlf_seen_by_parser"],
+        "components": _STORE_COMPONENTS,
+        "assumptions": ["caller stack depth <= 25 frames at the interpreter's default recursion limit",
+                        "MemoryError is out of scope (allocation failure cannot be injected deterministically from Python)"],
+    },
+}
+
+CHECKS["C03"] = {
+    "machine": "store",
+    "runs": {"quick": 40_000, "thorough": 1_500_000},
+    "chunk": {"quick": 500, "thorough": 2_000},
+    "budget_s": {"quick": 80, "thorough": 900},
+    "run_timeout": 120,
+    "manifest": {
+        "text": "Partial. Same storage-fault and size-swarm runs as C01, judged by a conservation oracle over (text handed to parse_string, blocks): "
+                "raws found left-to-right (greedy first occurrence is exact for this oracle), gaps whitespace-only, no overlap, nothing after the last raw; "
+                "start_line == number of newlines before the raw; for undamaged docgen documents each field whose key and '=' share a line reports that line. "
+                "NOT decided: bounded-exhaustive token sequences.",
+        "design_ref": "DESIGN.md section 3 / C03",
+        "note": "Sampling. Lines are counted as '\\n' characters (CRLF documents included; a lone CR is not a line break).",
+        "technique": "deterministic simulation: storage-fault injection, conservation (tiling) oracle over the recorded parse",
+    },
+    "extra": {
+        "rule": "as C01 (text handed to parse_string directly so CRLF survives); distinct = distinct event-log shape; non-trivial = a fault changed the bytes or a failed block appeared.",
+        "state_measure": "distinct (block-class sequence prefix, set of abort-reason classes) per load",
+        "expected_probes": ["abort:eof", "abort:unexpected-block-start", "abort:expected-equals",
+                            "abort:expected-comma-after-key", "abort:expected-equals-after-string-key",
+                            "crlf_seen_by_parser", "backslash_newline", "field_line_checked"],
+        "components": _STORE_COMPONENTS,
+        "assumptions": [],
+    },
+}
+
+CHECKS["C04"] = {
+    "machine": "store",
+    "runs": {"quick": 40_000, "thorough": 1_500_000},
+    "chunk": {"quick": 500, "thorough": 2_000},
+    "budget_s": {"quick": 80, "thorough": 900},
+    "run_timeout": 60,
+    "manifest": {
+        "text": "A stored file D1 + M + D2 whose middle document M is damaged by 0-2 storage faults (or replaced by raw garbage) is split by the real Splitter and by "
+                "parse_string(parse_stack=[]); differential oracle against the undamaged neighbours parsed on their own: the first len(parse(D1)) blocks and the last "
+                "len(parse(D2)) blocks must have the same content and raw (prefix: same start lines too). The fault-free case is the concatenation corollary. Sampling.",
+        "design_ref": "DESIGN.md section 3 / C04",
+        "note": "D1 is cut to end with a '}'-closed @-block, D2 starts with an @-block at a line start (the statement's preconditions); duplicate-key wrappers are unwrapped on both sides "
+                "(a key collision with something inside X is C09 semantics); suffix start lines are judged under C03 only.",
+        "technique": "deterministic simulation: storage faults confined to a byte range, differential oracle vs undamaged neighbours",
+    },
+    "extra": {
+        "rule": "each run = three docgen documents D1, M, D2 (+ one for interleaving), 0-2 faults applied to M's bytes or one of 8 raw garbage texts; "
+                "distinct = distinct event-log shape incl. text digest; every run is non-trivial (it parses D1+X+D2).",
+        "state_measure": "distinct (fault kinds, garbage id, abort-reason classes of the middle, middle-nonempty) tuples",
+        "expected_probes": ["abort:unexpected-block-start", "abort:expected-equals", "abort:expected-comma-after-key",
+                            "concatenation_of_valid_documents", "d2_starts_with_entry", "d2_starts_with_String", "d2_starts_with_Preamble",
+                            "d2_starts_with_ExplicitComment", "x_ends_in_backslash"],
+        "components": _STORE_COMPONENTS,
+        "assumptions": ["compared at splitter level only: under the default stack a field in D2 may legitimately resolve against an @string in D1 (C11)"],
+    },
+}
+
+CHECKS["C05"] = {
+    "machine": "store",
+    "runs": {"quick": 30_000, "thorough": 1_000_000},
+    "chunk": {"quick": 500, "thorough": 2_000},
+    "budget_s": {"quick": 80, "thorough": 900},
+    "run_timeout": 60,
+    "manifest": {
+        "text": "Weakest fit (DESIGN.md says so). Durability reading: seed file (foreign tool or library writer) -> parse_file -> write_file(format F) -> restart (memory dropped) -> "
+                "parse_file -> content must equal what was saved; write_file again with F -> bytes identical; 1-4 cycles with the format, target path, encoding "
+                "(utf-8, latin-1, utf-16, gbk) and simulated platform newline re-drawn; a longer pre-existing file is planted at the target in 30% of saves. Fault-free configuration only. Sampling.",
+        "design_ref": "DESIGN.md section 3 / C05",
+        "note": "Domain: documents whose first load yields no failed block (precondition misses are counted, never alarmed). The storage faults contribute nothing to this oracle.",
+        "technique": "deterministic simulation: save/restart/load histories on a simulated disk, durability + fixpoint oracle",
+    },
+    "extra": {
+        "rule": "each run = one docgen document, 1-4 save/restart/load/save-again cycles with per-cycle format; distinct = distinct event-log shape incl. byte digests; non-trivial = first load satisfied the precondition.",
+        "state_measure": "distinct (block-class sequence prefix) per load",
+        "expected_probes": ["reload_equal", "second_save_identical", "preexisting_longer_file", "crlf_file_loaded"],
+        "components": _STORE_COMPONENTS,
+        "assumptions": ["simulated locale == file encoding (write_file passes no encoding; a mismatch is C20's matter)"],
+    },
+}
+
 _PURE = ("pure function of its argument: no stream, no state kept between calls, no collaborator that can fail, no schedule or clock; "
          "the only thing a harness could vary is the input, which is input generation / bounded enumeration, not deterministic simulation (DESIGN.md section 1)")
 
